@@ -44,6 +44,7 @@ type c07Sess struct {
 	rr       *Result // responder result (initiator target)
 	iv, rv   cert.Version
 	ii, ri   *hsgIdent
+	allocErr *bool  // while true the responder's index allocator reports an error
 	twinFP   string // fingerprint of the peer certificate the twin's target reported
 	twinComp bool
 }
@@ -78,7 +79,14 @@ func c07New(z *hsgZoo, ci int, initTgt bool, ii, ri *hsgIdent, iv, rv cert.Versi
 	if s.im, err = hsgNewMachine(iv, z.hsgCreds(ii, ii.versions(), cf), iver, iIdx, true); err != nil {
 		return nil, err
 	}
-	if s.rm, err = hsgNewMachine(rv, z.hsgCreds(ri, ri.versions(), cf), rver, rIdx, false); err != nil {
+	s.allocErr = new(bool)
+	ralloc := func() (uint32, error) {
+		if *s.allocErr {
+			return 0, errors.New("verif: injected index allocation failure")
+		}
+		return rIdx, nil
+	}
+	if s.rm, err = NewMachine(rv, z.hsgCreds(ri, ri.versions(), cf), rver, ralloc, false, header.HandshakeIXPSK0); err != nil {
 		return nil, err
 	}
 	if s.m1, err = s.im.Initiate(nil); err != nil {
@@ -129,6 +137,9 @@ func (s *c07Sess) c07Pair(ir, rr *Result, history string) string {
 	if ir.RemoteIndex != rr.LocalIndex || rr.RemoteIndex != ir.LocalIndex {
 		return fmt.Sprintf("after [%s] the indexes are not mirrored", history)
 	}
+	if ir.MessageIndex != rr.MessageIndex {
+		return fmt.Sprintf("after [%s] the two ends report different message counts (%d vs %d); without the rejected messages they agree", history, ir.MessageIndex, rr.MessageIndex)
+	}
 	return ""
 }
 
@@ -166,9 +177,10 @@ func c07PointValid(curve cert.Curve, e []byte) bool {
 }
 
 type c07Pre struct {
-	msg       []byte
-	class     string
-	badStatic bool // forged stage-2 whose encrypted static key is an invalid/low-order point
+	msg        []byte
+	class      string
+	badStatic  bool // forged stage-2 whose encrypted static key is an invalid/low-order point
+	allocFault bool // delivered while the index allocator fails
 }
 
 // c07Known returns the recorded finding class a pre-message falls into (by its INPUT features
@@ -243,9 +255,15 @@ func c07DrawPre(rt *rapid.T, s *c07Sess, other func() *c07Sess) c07Pre {
 	kinds := []string{"trunc", "trunc", "trunc-edge", "trunc-edge", "flip", "flip", "badE", "badE", "randE", "other-session", "subtype", "counter", "extend", "tiny", "wrong-stage"}
 	if s.initTgt {
 		kinds = append(kinds, "forged-bad-static", "forged-bad-static", "bad-responder")
+	} else {
+		kinds = append(kinds, "alloc-fault")
 	}
 	k := rapid.SampledFrom(kinds).Draw(rt, "preKind")
 	switch k {
+	case "alloc-fault":
+		// the genuine message itself, arriving while the local index allocator reports an error: the
+		// message is rejected; if the machine then still calls itself usable the retransmission must work
+		return c07Pre{msg: hsgClone(g), class: "alloc-fault", allocFault: true}
 	case "trunc":
 		l := rapid.IntRange(0, len(g)-1).Draw(rt, "truncLen")
 		return c07Pre{msg: hsgClone(g[:l]), class: "trunc/" + c07Region(s, l)}
@@ -363,7 +381,9 @@ func c07Run(s *c07Sess, pres []c07Pre) (labels []string, nontrivial bool, violat
 		}
 		history += fmt.Sprintf("%s(len %d: %x)", p.class, len(p.msg), p.msg)
 		in := hsgClone(p.msg)
+		*s.allocErr = p.allocFault
 		out, r, err := tgt.ProcessPacket(nil, in)
+		*s.allocErr = false
 		if !bytes.Equal(in, p.msg) {
 			return labels, nontrivial, "ProcessPacket modified its input packet"
 		}
